@@ -159,10 +159,24 @@ def gen_pipeline(rng, nsteps, invertible=False, same_arity=None, max_dim=4):
 _FRAME_CACHE = {}
 
 
-def frame_obj(name, naxes, order=None):
+def frame_obj(name, naxes, order=None, unit=None):
     """gwcs frame object for a generated frame (fresh each call)"""
+    from astropy import units as _u
     return cf.CoordinateFrame(naxes=naxes, axes_type=("SPATIAL",) * naxes, axes_order=tuple(order) if order else tuple(range(naxes)), name=name,
-                              unit=None)
+                              unit=None if unit is None else (_u.Unit(unit),) * naxes)
+
+
+def paramless(t):
+    """a transform without any parameter (astropy then reports uses_quantity = True)"""
+    if t is None:
+        return True
+    if t[0] in ("identity", "mapping"):
+        return True
+    if t[0] in ("comp", "stack"):
+        return paramless(t[1]) and paramless(t[2])
+    if t[0] == "withinv":
+        return paramless(t[1])          # (the forward direction; the user-supplied inverse is another model)
+    return False
 
 
 def point(rng, n):
